@@ -182,6 +182,7 @@ func (tr *Tr) loopHeader(fr *Frame, li *loopInfo) {
 		entryVals[p] = tr.phiFrom(fr, p, func(pred *ssa.BasicBlock) bool { return !fr.back[[2]int{pred.Index, li.header.Index}] })
 	}
 
+	li.entryVals = entryVals
 	// 1. invariants on entry
 	if spec != nil {
 		for i, inv := range spec.Invariants {
@@ -623,22 +624,43 @@ func (tr *Tr) autoInvariants(fr *Frame, li *loopInfo, entryVals map[ssa.Value]Va
 			}})
 		}
 	}
-	// guard-derived upper bounds: header ends in `if phi < N` with N loop-invariant
+	// guard-derived upper bounds: header ends in `if phi < N` (or `if phi + c < N`) with N loop-invariant
 	if len(li.header.Instrs) > 0 {
 		if br, ok := li.header.Instrs[len(li.header.Instrs)-1].(*ssa.If); ok {
-			if bo, ok := br.Cond.(*ssa.BinOp); ok && li.blocks[li.header.Succs[0]] {
-				if p, ok := bo.X.(*ssa.Phi); ok && p.Block() == li.header && definedOutside(bo.Y, li) && (bo.Op == token.LSS || bo.Op == token.LEQ || bo.Op == token.NEQ) {
+			if bo, ok := br.Cond.(*ssa.BinOp); ok && li.blocks[li.header.Succs[0]] && definedOutside(bo.Y, li) && (bo.Op == token.LSS || bo.Op == token.LEQ || bo.Op == token.NEQ) {
+				var p *ssa.Phi
+				strict := false
+				if pp, ok := bo.X.(*ssa.Phi); ok && pp.Block() == li.header {
+					p = pp
+				} else if add, ok := bo.X.(*ssa.BinOp); ok && add.Op == token.ADD {
+					if pp, ok := add.X.(*ssa.Phi); ok && pp.Block() == li.header {
+						if c, ok := add.Y.(*ssa.Const); ok && c.Value != nil && c.Int64() > 0 && bo.Op == token.LSS {
+							p = pp
+							strict = true
+						}
+					}
+				}
+				if p != nil {
 					if _, sg, ok := intLeaf(p.Type()); ok {
 						N := tr.val(bo.Y)[0]
 						ev := entryVals[p][0]
-						li.auto = append(li.auto, &autoInv{phi: p, desc: p.Comment + " <= loop bound (when entered below it)", mk: func(v Val) *Term {
-							var le, le0 *Term
-							if sg {
-								le, le0 = f.SLe(v[0], N), f.SLe(ev, N)
-							} else {
-								le, le0 = f.ULe(v[0], N), f.ULe(ev, N)
+						desc := p.Comment + " <= loop bound (when entered below it)"
+						if strict {
+							desc = p.Comment + " < loop bound (when entered below it)"
+						}
+						li.auto = append(li.auto, &autoInv{phi: p, desc: desc, mk: func(v Val) *Term {
+							cmp := func(a, b *Term) *Term {
+								switch {
+								case strict && sg:
+									return f.SLt(a, b)
+								case strict:
+									return f.ULt(a, b)
+								case sg:
+									return f.SLe(a, b)
+								}
+								return f.ULe(a, b)
 							}
-							return f.Implies(le0, le)
+							return f.Implies(cmp(ev, N), cmp(v[0], N))
 						}})
 					}
 				}
